@@ -2,6 +2,7 @@
 # tools/mutant.sh <patch.diff> <check-id>... : apply a patch to a scratch copy of /repo (never to /repo itself),
 # run the given quick checks against it (VERIF_REPO), print verdict lines, delete the copy.
 # TIER=thorough to use the thorough tier.
+HERE="$(cd "$(dirname "${BASH_SOURCE[0]}")/.." && pwd)"
 set -u
 PATCH="$(readlink -f "$1")"; shift
 D=$(mktemp -d /tmp/mut-XXXXXX)
@@ -10,7 +11,7 @@ rsync -a --exclude .git --exclude docs --exclude examples /repo/ "$D/repo/"
 if ! (cd "$D/repo" && patch -p1 -s < "$PATCH"); then echo "PATCH FAILED"; rm -rf "$D"; exit 3; fi
 caught=0
 for c in "$@"; do
-  out=$(cd /verif && VERIF_REPO="$D/repo" VERIF_OUT="$D/out" ./check "$c" "${TIER:-quick}" 2>&1)
+  out=$(cd "$HERE" && VERIF_REPO="$D/repo" VERIF_OUT="$D/out" ./check "$c" "${TIER:-quick}" 2>&1)
   rc=$?
   echo "== $c rc=$rc"; echo "$out" | grep -E "VIOLATION|INCONCLUSIVE|key=" | head -6
   [ $rc -eq 1 ] && caught=1
